@@ -70,7 +70,7 @@ PLANS = {
                [D("up", n=60, steps=100, procs=8, faults=25, lag=True), D("mix", n=60, steps=100, procs=8, faults=20, lag=True)],
                "non-trivial: a scale-up scan (band decision or below-minimum recovery), esp. with tainted nodes reused, capacity bought after reuse or after a same-scan removal, creation-time ties",
                ["C07:scale-up", "C07:reused", "C07:reused-and-bought", "C07:removed-then-bought", "C07:ties", "C07:stale-view-lists-a-vanished-tainted-node"]),
-    "C08": ctl(["updown", "all_scale"], ["updown", "updown@v2", "updown@v3", "lag", "conflict", "all_scale"],
+    "C08": ctl(["updown", "all_annotscale", "all_scale"], ["updown", "updown@v2", "updown@v3", "lag", "conflict", "annot", "all_annotscale", "all_scale"],
                [D("down", faults=30, nodes=8), D("mix", faults=20)],
                [D("down", n=60, steps=100, procs=8, faults=30, nodes=8), D("mix", n=60, steps=100, procs=8, faults=20)],
                "non-trivial: a scan that tainted nodes, esp. leaving some untainted, with creation-time ties, with a failed write skipped",
@@ -80,7 +80,7 @@ PLANS = {
                [D("reap", n=60, steps=100, procs=8, faults=8), D("mix", n=60, steps=100, procs=8)],
                "non-trivial: a scan of a group with a cordoned node (fresh, tainted, grace-expired, force-tainted), incl. the capacity gauge read-back",
                ["C09:cordoned-present", "C09:cordoned-tainted", "C09:cordoned-expired", "C09:cordoned-force", "C09:capacity-checked"]),
-    "C10": ctl(["annot", "all_annot"], ["annot", "force", "all_annot", "all_reap"],
+    "C10": ctl(["annot", "all_annot", "all_annotscale"], ["annot", "force", "all_annot", "all_annotscale", "all_reap"],
                [D("reap", faults=5, twin=True), D("mix", twin=True), D("annotlate", n=10, steps=60, groups=1, faults=3, dry=0, twin=True),
                 # real time: what the controller remembers about a node (and when) ages too
                 D("annotlate", n=32, steps=26, procs=1, par=32, groups=1, faults=0, dry=0, realtime="4s")],
